@@ -746,3 +746,63 @@ func defIdentIn(info *types.Info, root ast.Node, obj types.Object) *ast.Ident {
 	})
 	return found
 }
+
+// trueIffUnchanged: cond, a boolean combination of comparisons of the progress variable with constants, is true
+// when the variable is 0 / false and false when it is 1 / true (the variable only counts upwards or is set to true).
+func trueIffUnchanged(info *types.Info, cond ast.Expr, change types.Object) bool {
+	var eval func(e ast.Expr, val constant.Value) (constant.Value, bool)
+	eval = func(e ast.Expr, val constant.Value) (constant.Value, bool) {
+		e = unparen(e)
+		if identObj(info, e) == change {
+			return val, true
+		}
+		if cv := constOf(info, e); cv != nil {
+			return cv, true
+		}
+		switch x := e.(type) {
+		case *ast.UnaryExpr:
+			if x.Op == token.NOT {
+				if v, ok := eval(x.X, val); ok && v.Kind() == constant.Bool {
+					return constant.MakeBool(!constant.BoolVal(v)), true
+				}
+			}
+		case *ast.BinaryExpr:
+			a, okA := eval(x.X, val)
+			b, okB := eval(x.Y, val)
+			if !okA || !okB {
+				return nil, false
+			}
+			switch x.Op {
+			case token.EQL, token.NEQ, token.LSS, token.GTR, token.LEQ, token.GEQ:
+				if a.Kind() == constant.Bool && b.Kind() == constant.Bool {
+					eq := constant.BoolVal(a) == constant.BoolVal(b)
+					switch x.Op {
+					case token.EQL:
+						return constant.MakeBool(eq), true
+					case token.NEQ:
+						return constant.MakeBool(!eq), true
+					}
+					return nil, false
+				}
+				if a.Kind() == constant.Int && b.Kind() == constant.Int {
+					return constant.MakeBool(constant.Compare(a, x.Op, b)), true
+				}
+			case token.LAND, token.LOR:
+				if a.Kind() == constant.Bool && b.Kind() == constant.Bool {
+					if x.Op == token.LAND {
+						return constant.MakeBool(constant.BoolVal(a) && constant.BoolVal(b)), true
+					}
+					return constant.MakeBool(constant.BoolVal(a) || constant.BoolVal(b)), true
+				}
+			}
+		}
+		return nil, false
+	}
+	zero, one := constant.Value(constant.MakeInt64(0)), constant.Value(constant.MakeInt64(1))
+	if b, ok := change.Type().Underlying().(*types.Basic); ok && b.Info()&types.IsBoolean != 0 {
+		zero, one = constant.MakeBool(false), constant.MakeBool(true)
+	}
+	v0, ok0 := eval(cond, zero)
+	v1, ok1 := eval(cond, one)
+	return ok0 && ok1 && v0.Kind() == constant.Bool && v1.Kind() == constant.Bool && constant.BoolVal(v0) && !constant.BoolVal(v1)
+}
